@@ -342,8 +342,44 @@ fn eval_seq(v: &Value) -> String {
     r.unwrap_or_else(|_| "panic".into())
 }
 
+/// What a program sees in stack bytes it never wrote, after an earlier execution on the same thread
+/// wrote there. One case = program W once, then program R twice, each on a VM of its own
+/// (interpreter). If R's two results differ the build itself has no single answer ("unstable", not
+/// compared); otherwise the answer is what this build shows to a program that reads its fresh stack.
+fn eval_res(v: &Value) -> String {
+    let w = unhexs(v["w"].as_str().unwrap_or(""));
+    let r = unhexs(v["r"].as_str().unwrap_or(""));
+    let run = |p: &[u8]| -> String {
+        match caught(|| {
+            let vm = match rbpf::EbpfVmNoData::new(Some(p)) {
+                Ok(v) => v,
+                Err(_) => return "LoadErr".to_string(),
+            };
+            rbpf::verif_hooks::set_insn_budget(Some(10_000));
+            let x = vm.execute_program();
+            rbpf::verif_hooks::set_insn_budget(None);
+            match x {
+                Ok(v) => format!("Ok:{v:x}"),
+                Err(_) => "Err".into(),
+            }
+        }) {
+            Ok(s) => s,
+            Err(()) => "panic".into(),
+        }
+    };
+    let w0 = run(&w);
+    let r1 = run(&r);
+    let r2 = run(&r);
+    if r1 == r2 {
+        format!("res:{}:{r1}", if w0.starts_with("Ok") { "w-ok" } else { "w-err" })
+    } else {
+        "res:unstable".into()
+    }
+}
+
 pub fn eval(v: &Value) -> String {
     match v["k"].as_str().unwrap_or("") {
+        "res" => eval_res(v),
         "asm" => {
             let t = v["t"].as_str().unwrap_or("");
             match caught(|| rbpf::assembler::assemble(t)) {
